@@ -77,6 +77,15 @@ class Forests:
                 cur.append(l)
         return recs
 
+    def inp(self, desc, path, query):
+        """the replayable input of a violation: the description, the query and the object file itself"""
+        import base64
+        try:
+            blob = base64.b64encode(open(path, "rb").read()).decode()
+        except OSError:
+            blob = None
+        return {"forest": desc, "query": query, "object_b64": blob, "file": None if blob else path}
+
     def cleanup(self):
         import shutil
         shutil.rmtree(self.dir, ignore_errors=True)
@@ -101,3 +110,28 @@ RAW_QUERY = ("raw entry [offset value, label value, [parent offset value], [?has
              "[attribute [label value, form value]]]")
 COOKED_QUERY = ("entry [offset value, [parent offset value], [root offset value], [child offset value], "
                 "[attribute label value]]")
+
+
+def run_replay(ctx):
+    """--replay: write the stored object out, run the stored query on the working tree's library, show what comes"""
+    import base64
+    import json
+    rp = json.load(open(ctx.replay))
+    inp = rp.get("input", {})
+    fs = Forests(ctx)
+    try:
+        path = inp.get("file")
+        if inp.get("object_b64"):
+            path = os.path.join(fs.dir, "replay.o")
+            open(path, "wb").write(base64.b64decode(inp["object_b64"]))
+        q = inp.get("query")
+        print("replay: %s" % rp.get("what"))
+        print("query: %s" % q)
+        if path and q:
+            recs, crashes = fs.query(path, [q])
+            print("library now: err=%r crashes=%r results=%d" % (recs[0].err if recs else None, crashes, len(recs[0].res) if recs else 0))
+            for r in (recs[0].res[:20] if recs else []):
+                print("  " + normalize(r))
+            print("expected: %r" % (rp.get("expected"),))
+    finally:
+        fs.cleanup()
